@@ -50,6 +50,9 @@ RULE = ('session: 300 (quick) / 3500 (thorough) histories of 5..60 (quick) / 5..
         'caller objects: in 60 % of the histories (and in all exhaustive / bigbatch ones) the URLProperties / '
         'URLData / URLResult objects handed to add_many / check_in are RE-USED: the j-th entry of every batch '
         'is the same object with its attributes reset and set anew, one URLResult for all check_ins. '
+        'start state: 35 % of the on-disk / generic tables (random and multi streams, exhaustive every 16th) are '
+        'opened on a file whose schema was left half-created (tables present, all or a seeded subset of the '
+        'explicit indexes missing, as after a kill between CREATE TABLE and CREATE INDEX). '
         'bigbatch: one add_many of 1, 499..503, 1000..1003, 1500+ (thorough up to 2506) entries, plain / with '
         'properties (3 strings per entry: 166..168, 333..336) / mixed / with internal duplicates, then count, get_one '
         'at chunk-boundary positions, check_out, a second overlapping batch, count, get_hostnames. '
@@ -182,7 +185,7 @@ def exc_name(e):
 class Real:
     """A real table of one variant; `apply(op)` returns (canonical output, python value)."""
 
-    def __init__(self, variant, wrapped, share=None, reuse=True):
+    def __init__(self, variant, wrapped, share=None, reuse=True, damage=None):
         """share: another Real whose database file this one opens too (two live tables on one file)"""
         self.variant = variant
         self.wrapped = wrapped
@@ -200,6 +203,8 @@ class Real:
         # that fills one properties object per batch does; the table must read the current values
         self.reuse = reuse
         self._props, self._datas, self._result = {}, {}, None
+        if damage is not None and share is None and variant != 'memory':
+            self.half_create(damage)
         self.open()
 
     def open(self):
@@ -212,6 +217,30 @@ class Real:
         else:
             t = GenericSQLURLTable('sqlite:///' + os.path.join(self.dir, 'generic.db'))
         self.table = URLTableHookWrapper(t) if self.wrapped else t
+
+    def db_file(self):
+        return self.path.replace('?', '_') if self.variant == 'disk' else os.path.join(self.dir, 'generic.db')
+
+    def half_create(self, damage):
+        """What a run killed between CREATE TABLE and CREATE INDEX leaves: the tables exist, some ('all' or
+        a seeded subset) of the explicitly created indexes - among them the UNIQUE ones on
+        url_strings.url and queued_urls.url_string_id - are missing.  Opening the table must repair it."""
+        import random
+        import sqlite3
+        from sqlalchemy import create_engine
+        from wpull.database.sqlmodel import DBBase
+        eng = create_engine('sqlite:///' + self.db_file())
+        DBBase.metadata.create_all(eng)
+        eng.dispose()
+        con = sqlite3.connect(self.db_file())
+        names = [r[0] for r in con.execute("select name from sqlite_master where type='index' and sql is not null")]
+        if damage != 'all':
+            r = random.Random(damage)
+            names = [n for n in names if r.random() < 0.6] or names[:1]
+        for n in names:
+            con.execute('drop index "%s"' % n)
+        con.commit()
+        con.close()
 
     def dispose(self):
         for t in [self.table] + self.abandoned:
@@ -869,7 +898,10 @@ def gen_session(rng, maxlen):
                 if len(error_kinds(so)) <= 1:
                     sub.append(so)
             ops.insert(rng.randrange(1, len(ops) + 1), ['K', sub, rng.random() < 0.5])
-    return {'variant': variant, 'wrapped': rng.random() < 0.5, 'reuse': rng.random() < 0.6, 'ops': ops}
+    case = {'variant': variant, 'wrapped': rng.random() < 0.5, 'reuse': rng.random() < 0.6, 'ops': ops}
+    if variant != 'memory' and rng.random() < 0.35:
+        case['damage'] = rng.choice(['all', 'all', rng.randrange(1000)])    # half-created schema on the file
+    return case
 
 
 # ------------------------------------------------------------------ large batches (size boundaries)
@@ -950,6 +982,10 @@ def exhaustive_cases(thorough):
                     ('memory', 'memory', 'disk', 'memory', 'memory', 'generic', 'memory', 'memory')[k % 8]
                 cases.append({'variant': variant, 'wrapped': (k // 4) % 2 == 1,
                               'ops': [json.loads(json.dumps(o)) for o in pre + list(mid) + [obs]]})
+                if variant != 'memory' and k % 16 < 8:
+                    cases[-1]['damage'] = 'all'
+                    if k % 32 < 8:
+                        cases[-1]['variant'] = 'generic'    # the --database-uri class on a damaged file
     return cases
 
 
@@ -996,7 +1032,7 @@ def run_case(ctx, case, reply, stream='session'):
     flat = flatten(case['ops'])
     ops = [op for op, _ in flat]
     model = split_reply(reply, len(ops)) if reply is not None else None
-    real = Real(case['variant'], case['wrapped'], reuse=case.get('reuse', True))
+    real = Real(case['variant'], case['wrapped'], reuse=case.get('reuse', True), damage=case.get('damage'))
     oracle = Oracle(ctx, case, real.persistent)
     visits = VisitOracle(oracle)
     changed = False
@@ -1047,6 +1083,8 @@ def run_case(ctx, case, reply, stream='session'):
     finally:
         real.dispose()
     tags.add('variant:%s%s' % (case['variant'], '+wrapper' if case['wrapped'] else ''))
+    if case.get('damage') is not None:
+        tags.add('half-created-schema:' + case['variant'])
     tags.add('caller-objects:' + ('reused' if case.get('reuse', True) else 'fresh'))
     tags.add('stream:' + stream)
     ctx.case(('session', case['variant'], case['wrapped'], json.dumps(jsonable_ops(ops), sort_keys=True)),
@@ -1061,6 +1099,9 @@ def gen_multi(rng, maxlen=30):
     n = rng.choice([2, 2, 3])
     tables = [{'variant': rng.choice(['memory', 'disk', 'disk', 'generic']), 'wrapped': rng.random() < 0.4,
                'reuse': rng.random() < 0.6} for _ in range(n)]
+    for t in tables:
+        if t['variant'] != 'memory' and rng.random() < 0.35:
+            t['damage'] = rng.choice(['all', rng.randrange(1000)])
     if rng.random() < 0.5:
         # two live table objects on the SAME file: they are one table
         tables[0]['variant'] = rng.choice(['disk', 'disk', 'generic'])
@@ -1107,7 +1148,7 @@ def run_multi(ctx, case, replies, stream='multi'):
         for i, t in enumerate(case['tables']):
             try:
                 reals.append(Real(t['variant'], t['wrapped'], share=reals[grp[i]] if grp[i] != i else None,
-                                  reuse=t.get('reuse', True)))
+                                  reuse=t.get('reuse', True), damage=t.get('damage')))
             except Infra:
                 raise
             except Exception as e:
